@@ -66,9 +66,10 @@ CLAIMED.update({
             "generated machines - all forests over 4 (thorough 5) states with solver-chosen parent pointers, any current state, a "
             "transition and its reverse: refused requests raise and change nothing, allowed ones end at the destination with active == "
             "ancestors(current) and exactly the leave/enter/called events of the states exited/entered; (c) a follow-up transition "
-            "requested from inside an enter handler, allowed or refused (refusal swallowed by the handler or propagating). Two "
-            "defects found by these obligations (uneven depth below a common ancestor; nested request while a parent is still to be "
-            "entered) were repaired in /repo; the obligations now hold without exclusions for all forests.",
+            "requested from inside an enter handler, allowed or refused (refusal swallowed by the handler or propagating); per state the "
+            "enter/leave events strictly alternate and agree with the final flags. Three defects found with these obligations (uneven "
+            "depth below a common ancestor; nested request while a parent is still to be entered; pending child never entered / left "
+            "without being entered) were repaired in /repo; the obligations now hold without exclusions for all forests.",
             "Trusted: CrossHair + chx; pre-states constructed directly. NOT covered (stated, no claim): requests made concurrently from "
             "several threads - _perform_transition has no lock; the interleaving encoding (E3) for it is not built. Outside: > 5 states, "
             "follow-ups from leave/called handlers.",
